@@ -2910,10 +2910,14 @@ def oper_oracle(t, steps):
 def c11_sweep(res):
     traces = []
     for dm in ("", "O", "o", "w"):
-        for mask in (None, "*!*@127.0.0.1", "other!*@*"):
+        # masks given without all three parts are compared AS WRITTEN (only list masks are completed): 'admin@127.0.0.1', 'admin'
+        # and 'admin!~admin' match no nick!user@host at all (seeded C11-f)
+        for mask in (None, "*!*@127.0.0.1", "other!*@*", "admin@127.0.0.1", "admin", "admin!~admin"):
+            if dm and mask in ("admin@127.0.0.1", "admin", "admin!~admin"):
+                continue
             cfg = Config(default_modes=dm, operators=[dict(name="admin", password="operpass", mask=mask), dict(name="alice", password="topsecret")])
             for nickcase in ("alice", "admin", "zoe"):
-                t = Trace("c11-%s-%s-%s" % (dm or "none", "m%d" % (0 if mask is None else len(mask)), nickcase), cfg)
+                t = Trace("c11-%s-%s-%s" % (dm or "none", "m%s" % (0 if mask is None else hx(mask)), nickcase), cfg)
                 t.register(0, nickcase)
                 t.register(1, "bob")
                 t.register(2, "carol")
@@ -3259,14 +3263,15 @@ def c12_pairs(res):
     pairs = []
     k = 0
     for secret_flags in ("s", "sn", "si", "sm"):
-        for ghost_mode in ("plain", "invisible"):
+        for ghost_mode in ("plain", "invisible", "invisible_registered"):
             for sharing in (False, True):
                 for topic in (None, "secret topic"):
                     k += 1
                     if res.tier == "quick" and not pick(res, k, 2):
                         continue
                     def build(hidden_present, tid):
-                        cfg = Config(operators=[dict(name="admin", password="operpass")])
+                        # the hidden user may be a configured one (it then carries +r, which WHOIS reports first: seeded C12-f)
+                        cfg = Config(operators=[dict(name="admin", password="operpass")], users=[dict(name="ghostacct", nick="ghost", password=None, mask=None)])
                         t = Trace(tid, cfg)
                         t.register(0, "alice", "webchat")
                         t.register(1, "member", "m")
@@ -3277,8 +3282,8 @@ def c12_pairs(res):
                         t.line(1, "JOIN #pub")
                         t.line(2, "JOIN #pub")
                         if hidden_present:
-                            t.register(4, "ghost", "webchat", real="Real Ghost")
-                            if ghost_mode == "invisible":
+                            t.register(4, "ghost", "ghostacct" if ghost_mode == "invisible_registered" else "webchat", real="Real Ghost")
+                            if ghost_mode != "plain":
                                 t.line(4, "MODE ghost +i")
                             t.line(4, "JOIN #sec")
                             t.line(4, "MODE #sec +" + secret_flags)
@@ -3316,7 +3321,7 @@ def check_C12(res):
         sb, sa = impl.get(tb.id), impl.get(ta.id)
         if not sb or not sa:
             continue
-        if tb.meta["ghost"] != "invisible":
+        if not tb.meta["ghost"].startswith("invisible"):
             # a visible user may of course be seen; only the secret channel must stay hidden
             hide_user = False
         else:
@@ -3358,7 +3363,7 @@ def check_C12(res):
                                    "trace_file": tb.render()}, found=True)
     res.coverage.update({
         "evaluations": r["steps"], "distinct_nontrivial": compared,
-        "rule": "two-world runs ON THE IMPLEMENTATION: %d pairs of histories (secret channel flags {s,sn,si,sm} x hidden user {visible,+i} x a bystander shares the secret channel or not x topic) that differ only "
+        "rule": "two-world runs ON THE IMPLEMENTATION: %d pairs of histories (secret channel flags {s,sn,si,sm} x hidden user {visible, +i, +i and configured (+r)} x a bystander shares the secret channel or not x topic) that differ only "
                 "in the hidden part; in both worlds two outsiders (one itself +i, one with the same user name as the hidden user) ask %d query forms of LIST/NAMES/WHO/WHOIS (explicit names, comma lists, wildcard "
                 "masks over nick, source and real name, no argument) and try to speak into the channel; the canonicalised answers must be equal; plus %d seeded random histories compared impl vs model with "
                 "the view oracle; distinct_nontrivial = query answers compared between the two worlds" % (len(pairs), len(QUERIES) - 1, n),
@@ -4476,7 +4481,7 @@ def check_C20(res):
 import threading
 
 KA_PATTERNS = ["always", "never", "late_ok", "late_bad", "stop_after_2", "odd_token", "chatter_never", "unsolicited_then_never", "stop_after_1_chatter",
-               "slow_register_always", "cap_midsession_always"]
+               "slow_register_always", "cap_midsession_always", "empty_token_always"]
 
 
 def ka_client(port, nick, pattern, ping, pong, t_end, out):
@@ -4579,6 +4584,8 @@ def ka_client(port, nick, pattern, ping, pong, t_end, out):
                     reply = (tl, "PONG :" + tok)
                 elif pattern == "odd_token":
                     reply = (tl, ["PONG :something else", "PONG x", "pong :" + tok, "PONG irc.irc :y"][k % 4])
+                elif pattern == "empty_token_always":
+                    reply = (tl, "PONG :")          # a PONG with ANY token answers the PING - also the empty one (seeded C17-f)
                 if reply:
                     pending.append(reply)
                     answered += 1
